@@ -3,7 +3,7 @@
    nat stay the extracted Coq datatypes. *)
 Require Extraction.
 Require Import ExtrOcamlBasic.
-From Lace Require Import Driver.
+From Lace Require Import Driver DriverCmd.
 Extraction Language OCaml.
 Set Extraction Optimize.
-Extraction "../ocaml/gen/lace_model.ml" run_c02 run_c03 run_asm.
+Extraction "../ocaml/gen/lace_model.ml" run_c02 run_c03 run_asm run_c14.
